@@ -50,7 +50,9 @@ LeafKinds == {"from", "alias", "as-alias", "schema", "two-tables", "join-two", "
 NestKinds == {"in-subquery", "exists", "scalar-subquery", "derived", "join-derived", "cte", "insert-select", "update-subquery",
               "delete-subquery", "union", "not-in-subquery", "values-subquery", "returning-subquery", "upsert-subquery",
               "update-set-subquery", "having-subquery", "join-on-subquery", "case-subquery", "function-arg-subquery",
-              "order-by-subquery", "between-subquery"}
+              "order-by-subquery", "between-subquery",
+              \* a derived table as the LEFT operand of a join, and as the first / last item of a FROM list that a join follows
+              "derived-then-join", "derived-first-of-list-then-join", "derived-last-of-list-then-join"}
 
 
 \* ---- expression slots: every expression position x every expression shape ----------------------------------------
@@ -263,6 +265,15 @@ Nest(k, L, n) ==
     [] k = "join-derived" ->
          With([toks |-> <<"SELECT", ca, "FROM", ta, "JOIN", "(">> \o n.toks \o <<")", xa, "ON", ca, "=", "1">>,
                T |-> {ta}, TQ |-> {Plain(ta)}, C |-> {ca}, CQ |-> {Plain(ca)}, F |-> {}, A |-> {xa}], n)
+    [] k = "derived-then-join" ->
+         With([toks |-> <<"SELECT", ca, "FROM", "(">> \o n.toks \o <<")", xa, "JOIN", ta, "ON", ca, "=", "1">>,
+               T |-> {ta}, TQ |-> {Plain(ta)}, C |-> {ca}, CQ |-> {Plain(ca)}, F |-> {}, A |-> {xa}], n)
+    [] k = "derived-first-of-list-then-join" ->
+         With([toks |-> <<"SELECT", ca, "FROM", "(">> \o n.toks \o <<")", xa, ",", ta, "JOIN", Tab(L, "b"), "ON", ca, "=", "1">>,
+               T |-> {ta, Tab(L, "b")}, TQ |-> {Plain(ta), Plain(Tab(L, "b"))}, C |-> {ca}, CQ |-> {Plain(ca)}, F |-> {}, A |-> {xa}], n)
+    [] k = "derived-last-of-list-then-join" ->
+         With([toks |-> <<"SELECT", ca, "FROM", ta, ",", "(">> \o n.toks \o <<")", xa, "JOIN", Tab(L, "b"), "ON", ca, "=", "1">>,
+               T |-> {ta, Tab(L, "b")}, TQ |-> {Plain(ta), Plain(Tab(L, "b"))}, C |-> {ca}, CQ |-> {Plain(ca)}, F |-> {}, A |-> {xa}], n)
     [] k = "cte" ->
          \* the CTE is referenced in a table position of the main query: its name is reported as written there
          LET w == "w" \o S(L) IN
@@ -314,7 +325,8 @@ Nest(k, L, n) ==
 \* statements that may stand in a hole are queries
 QueryLeaf == LeafKinds \ {"insert-values", "update", "delete", "merge", "slot-d"}
 QueryNest == {"in-subquery", "not-in-subquery", "exists", "scalar-subquery", "derived", "join-derived", "union", "having-subquery",
-              "join-on-subquery", "case-subquery", "function-arg-subquery", "order-by-subquery", "between-subquery"}
+              "join-on-subquery", "case-subquery", "function-arg-subquery", "order-by-subquery", "between-subquery",
+              "derived-then-join", "derived-first-of-list-then-join", "derived-last-of-list-then-join"}
 
 \* a composition is a path of kinds, outermost first; all but the last are nest kinds
 Paths == UNION {{p \in [1..d -> LeafKinds \cup NestKinds] :
